@@ -9,6 +9,8 @@ instance : Spec.C02.WireLaws Rat where
   le_trans x y z h1 h2 := by
     simp only [FloatOps.le, decide_eq_true_eq] at *; exact Rat.le_trans h1 h2
   feq_refl x _ := by simp [FloatOps.feq]
+  le_refl x _ := by simp [FloatOps.le]
+  negMax_le_max := by decide +kernel
   isNaN_addZero _ := rfl
   le_addZero_left _ _ := rfl
   le_addZero_right _ _ := rfl
